@@ -334,6 +334,10 @@ impl<'a> Interp<'a> {
             p.offsets.clear();
             p.seen.clear();
         }
+        if stream_level {
+            // the sibling topic lives in the purged stream; the sibling stream does not
+            self.sib_topic_msgs = 0;
+        }
         self.epoch += 1;
         self.all_full_reads("after purge")
     }
@@ -566,13 +570,33 @@ impl<'a> Interp<'a> {
         if t.size.as_bytes_u64() != psum {
             return f(self, "topic-size-sum", format!("topic size {} != sum of partition sizes {}", t.size.as_bytes_u64(), psum));
         }
+        // the sibling topic of the same stream: its own figures, then the stream = sum over both topics
+        let (mut sib_msgs, mut sib_size, mut topics) = (0u64, 0u64, 1u32);
+        if self.case.sibling_segs > 0 {
+            let n = self.node();
+            let t2 = n.block_on(async { self.cl().get_topic(&sid(), &Identifier::numeric(TOPIC + 1).unwrap()).await });
+            match t2 {
+                Ok(Some(t2)) => {
+                    let p1 = t2.partitions.first().map(|p| (p.messages_count, p.size.as_bytes_u64())).unwrap_or((u64::MAX, 0));
+                    if t2.messages_count != self.sib_topic_msgs || p1.0 != self.sib_topic_msgs || t2.size.as_bytes_u64() != p1.1 || (self.sib_topic_msgs == 0 && p1.1 != 0) {
+                        return f(self, "sibling-topic-figures", format!(
+                            "the sibling topic t2 holds {} messages in one partition; it reports messages_count {} size {}, its partition {} / {}",
+                            self.sib_topic_msgs, t2.messages_count, t2.size.as_bytes_u64(), p1.0, p1.1));
+                    }
+                    sib_msgs = t2.messages_count;
+                    sib_size = t2.size.as_bytes_u64();
+                    topics = 2;
+                }
+                other => return f(self, "sibling-topic-figures", format!("get_topic(t2): {:?}", other.map(|_| ()))),
+            }
+        }
         let n = self.node();
         let s = n.block_on(async { self.cl().get_stream(&sid()).await });
         match s {
             Ok(Some(s)) => {
-                if s.messages_count != total || s.size.as_bytes_u64() != psum || s.topics_count != 1 {
+                if s.messages_count != total + sib_msgs || s.size.as_bytes_u64() != psum + sib_size || s.topics_count != topics {
                     return f(self, "stream-sums", format!(
-                        "stream reports messages_count {} size {} topics {}; its only topic has {} messages, size {}", s.messages_count, s.size.as_bytes_u64(), s.topics_count, total, psum));
+                        "stream reports messages_count {} size {} topics {}; its topics hold {} + {} messages, sizes {} + {}", s.messages_count, s.size.as_bytes_u64(), s.topics_count, total, sib_msgs, psum, sib_size));
                 }
             }
             other => return f(self, "stream-sums", format!("get_stream: {:?}", other.map(|_| ()))),
@@ -587,16 +611,46 @@ impl<'a> Interp<'a> {
             Ok(s) => s,
             Err(e) => return Err(self.fail("C16", "stats", format!("get_stats failed: {e}"))),
         };
-        let total: u64 = self.parts.iter().map(|p| p.retained()).sum();
-        let segs: u32 = (1..=self.parts.len() as u32).map(|p| self.observe(p).len() as u32).sum();
+        let mut total: u64 = self.parts.iter().map(|p| p.retained()).sum();
+        let mut segs: u32 = (1..=self.parts.len() as u32).map(|p| self.observe(p).len() as u32).sum();
         let t = self.topic_details()?;
-        if st.streams_count != 1 || st.topics_count != 1 || st.partitions_count as usize != self.parts.len() || st.segments_count != segs
-            || st.messages_count != total || st.consumer_groups_count != 0 || st.messages_size_bytes.as_bytes_u64() != t.size.as_bytes_u64()
+        let (mut streams, mut topics, mut parts, mut size) = (1u32, 1u32, self.parts.len(), t.size.as_bytes_u64());
+        if self.case.sibling_segs > 0 {
+            // statistics = sums over all streams and topics: add what the siblings report / hold
+            let n = self.node();
+            let t2 = n.block_on(async { self.cl().get_topic(&sid(), &Identifier::numeric(TOPIC + 1).unwrap()).await }).ok().flatten();
+            topics += 1;
+            parts += 1;
+            total += self.sib_topic_msgs;
+            segs += self.observe_topic(TOPIC + 1, 1).len() as u32;
+            size += t2.map(|t| t.size.as_bytes_u64()).unwrap_or(0);
+            if self.has_sibling_stream() {
+                let s2 = Identifier::numeric(STREAM + 1).unwrap();
+                let sd = n.block_on(async { self.cl().get_stream(&s2).await }).ok().flatten();
+                let u1 = n.block_on(async { self.cl().get_topic(&s2, &Identifier::numeric(1).unwrap()).await }).ok().flatten();
+                match (&sd, &u1) {
+                    (Some(sd), Some(u1)) if sd.messages_count == self.sib_stream_msgs && u1.messages_count == self.sib_stream_msgs && sd.size == u1.size && sd.topics_count == 1 => {}
+                    _ => {
+                        return Err(self.fail("C16", "sibling-stream-figures", format!(
+                            "the sibling stream s2 holds {} messages in one topic; it reports {:?}, its topic {:?}", self.sib_stream_msgs,
+                            sd.as_ref().map(|s| (s.messages_count, s.size.as_bytes_u64(), s.topics_count)), u1.as_ref().map(|t| (t.messages_count, t.size.as_bytes_u64())))));
+                    }
+                }
+                streams += 1;
+                topics += 1;
+                parts += 1;
+                total += self.sib_stream_msgs;
+                segs += self.observe_at(STREAM + 1, 1, 1).len() as u32;
+                size += sd.map(|s| s.size.as_bytes_u64()).unwrap_or(0);
+            }
+        }
+        if st.streams_count != streams || st.topics_count != topics || st.partitions_count as usize != parts || st.segments_count != segs
+            || st.messages_count != total || st.consumer_groups_count != 0 || st.messages_size_bytes.as_bytes_u64() != size
         {
             return Err(self.fail("C16", "stats-sums", format!(
-                "stats: streams {} topics {} partitions {} segments {} messages {} groups {} size {}; expected 1 1 {} {} {} 0 {}",
+                "stats: streams {} topics {} partitions {} segments {} messages {} groups {} size {}; expected {streams} {topics} {parts} {segs} {total} 0 {size}",
                 st.streams_count, st.topics_count, st.partitions_count, st.segments_count, st.messages_count, st.consumer_groups_count,
-                st.messages_size_bytes.as_bytes_u64(), self.parts.len(), segs, total, t.size.as_bytes_u64())));
+                st.messages_size_bytes.as_bytes_u64())));
         }
         Ok(())
     }
